@@ -52,3 +52,29 @@ func VerifHarness_C13_deadline_reaches_a_blocked_reader() {
 	}
 	vReach("end")
 }
+
+// A reader that is already blocked in ReadFrom when the relayed socket is closed from another goroutine is
+// released with an error (whether or not the deallocating Refresh could be sent).
+//
+//verif:props=C13,C18 bounds="one goroutine blocked in ReadFrom on an empty queue; Close from the harness goroutine, with the Refresh transaction failing or not"
+func VerifHarness_C13_close_releases_a_blocked_reader() {
+	fc := &vClient{fixed: vReactSuccess, txFails: true}
+	c := vNewUDPConn(fc)
+	var rerr error
+	done := false
+	go func() {
+		_, _, rerr = c.ReadFrom(make([]byte, 8))
+		done = true
+	}()
+	vRunSpawn(0)
+	vAssert(!done, "C13.cover_reader_is_blocked")
+	_ = c.Close()
+	vYield()
+	vAssert(done, "C13.close_releases_a_blocked_reader")
+	vAssert(done, "C18.close_racing_with_a_reader_leaves_nobody_blocked")
+	if done {
+		vAssert(rerr != nil, "C13.read_after_close_fails")
+	}
+	vAssert(vLocksHeld() == 0, "C18.no_lock_left_held")
+	vReach("end")
+}
